@@ -485,8 +485,55 @@ func wireNameLemmas(prog *Program) []*lemmaQuery {
 	return out
 }
 
+// headerNameLemmas: the HTTP handlers bind the request headers into per-handler structs by tag; a field whose
+// tag names another header silently ignores what the client sent (an idempotency key that is never read makes
+// every retry a conflict). Every field called RequestId / IdempotencyKey / Strict of a struct of the http
+// package that carries header tags must be bound to the documented header.
+func headerNameLemmas(prog *Program) []*lemmaQuery {
+	want := map[string]string{"RequestId": "request-id", "IdempotencyKey": "idempotency-key", "Strict": "strict"}
+	var out []*lemmaQuery
+	pkg := "internal/app/subsystems/api/http"
+	pp := prog.ppkg[repoModule+"/"+pkg]
+	if pp == nil || pp.Types == nil {
+		return []*lemmaQuery{structural("the http package is loaded", pkg, false, "package not found")}
+	}
+	scope := pp.Types.Scope()
+	for _, name := range scope.Names() {
+		tn, ok := scope.Lookup(name).(*types.TypeName)
+		if !ok {
+			continue
+		}
+		st, ok := tn.Type().Underlying().(*types.Struct)
+		if !ok {
+			continue
+		}
+		hasHeader := false
+		for i := 0; i < st.NumFields(); i++ {
+			if _, ok := reflect.StructTag(st.Tag(i)).Lookup("header"); ok {
+				hasHeader = true
+			}
+		}
+		if !hasHeader {
+			continue
+		}
+		for i := 0; i < st.NumFields(); i++ {
+			w, known := want[st.Field(i).Name()]
+			if !known {
+				continue
+			}
+			got := reflect.StructTag(st.Tag(i)).Get("header")
+			out = append(out, structural(fmt.Sprintf("%s.%s is bound to the request header %q", name, st.Field(i).Name(), w), pkg+":"+name+"."+st.Field(i).Name(), got == w, st.Tag(i)))
+		}
+	}
+	return out
+}
+
 func extraObligations(prog *Program, prop, tier string) []*lemmaQuery {
 	out := extraObligations0(prog, prop, tier)
+	switch prop {
+	case "C03", "C15", "C20", "C01":
+		out = append(out, headerNameLemmas(prog)...)
+	}
 	switch prop {
 	case "C19", "C20", "C18", "C08":
 		out = append(out, wireNameLemmas(prog)...)
